@@ -9,15 +9,16 @@ export GOFLAGS=-mod=mod GOPROXY=off
 wt=/tmp/confirm_$name
 git -C /repo worktree remove --force "$wt" 2>/dev/null
 git -C /repo worktree add -q --detach "$wt" HEAD || exit 2
-cp "$src/ecs/zz_seeded_demo_test.go" "$wt/ecs/"
+demo="$src/ecs/zz_seeded_demo_test.go"; [ -f "$demo" ] || demo="$src/zz_seeded_demo_test.go"
+cp "$demo" "$wt/ecs/"
 cd "$wt"
-r1=$(go test -count=1 -run TestSeededDemo ./ecs 2>&1 | tail -1)
+r1=$(go test -count=1 -run TestSeeded ./ecs 2>&1 | tail -1)
 git apply "$src/patch.diff" || { echo "patch does not apply"; exit 2; }
 b=$(go build ./... 2>&1 && go vet ./ecs 2>&1 | tail -2)
 mv ecs/zz_seeded_demo_test.go /tmp/zz_demo_$name.txt
 r2=$(go test -count=1 ./... 2>&1 | grep -v "no test files" | tr '\n' ' ')
 mv /tmp/zz_demo_$name.txt ecs/zz_seeded_demo_test.go
-r3=$(go test -count=1 -run TestSeededDemo ./ecs 2>&1 | tail -1)
+r3=$(go test -count=1 -run TestSeeded ./ecs 2>&1 | tail -1)
 echo "unchanged+demo: $r1"; echo "build/vet: ${b:-ok}"; echo "patched suite: $r2"; echo "patched+demo: $r3"
 ok=1
 [[ "$r1" == ok* ]] || ok=0
@@ -28,7 +29,7 @@ git -C /repo worktree remove --force "$wt"
 if [ $ok = 1 ]; then
   mkdir -p /verif/seeded/$name
   cp "$src/patch.diff" /verif/seeded/$name/patch.diff
-  cp "$src/ecs/zz_seeded_demo_test.go" /verif/seeded/$name/zz_seeded_demo_test.go
+  cp "$demo" /verif/seeded/$name/zz_seeded_demo_test.go
   echo "CONFIRMED $name"
 else
   echo "NOT CONFIRMED $name"
